@@ -5,6 +5,7 @@ SIG_BYTELEN = {512: 666, 1024: 1280}
 PK_BYTELEN = {512: 897, 1024: 1793}
 SK_BYTELEN = {512: 1281, 1024: 2305}
 SALT_LEN = 40
+SIG_HEADER_BASE = 0x50    # this library labels its (padded, compressed) signatures 0 10 1 nnnn; C16 notes the re-labelling w.r.t. the reference (0x30 + logn)
 COEFF_LIMIT = 12160                                     # property C07: entries below 12160 in magnitude (95 * 128)
 
 
@@ -88,3 +89,110 @@ def negacyclic_mul(a, b):
             if k >= n: c[k - n] = (c[k - n] - a[i] * b[j]) % Q
             else: c[k] = (c[k] + a[i] * b[j]) % Q
     return c
+
+
+# ---------------------------------------------------------------------------------------------- Z_q[X]/(X^n+1) helpers (independent of the crate)
+_ROOTS = {}
+
+
+def psi(n):
+    """a primitive 2n-th root of unity mod q (n a power of two <= 1024)"""
+    if n not in _ROOTS:
+        for g in range(2, Q):
+            r = pow(g, (Q - 1) // (2 * n), Q)
+            if pow(r, n, Q) == Q - 1:
+                _ROOTS[n] = r; break
+    return _ROOTS[n]
+
+
+def evaluate(p, n):
+    """values of p at psi^(2i+1), i < n (the roots of X^n + 1); O(n^2)"""
+    w = psi(n)
+    pows = [1] * (2 * n)
+    for i in range(1, 2 * n): pows[i] = pows[i - 1] * w % Q
+    return [sum(p[j] * pows[((2 * i + 1) * j) % (2 * n)] for j in range(n)) % Q for i in range(n)]
+
+
+def interpolate(vals, n):
+    w = psi(n); winv = pow(w, Q - 2, Q); ninv = pow(n, Q - 2, Q)
+    pows = [1] * (2 * n)
+    for i in range(1, 2 * n): pows[i] = pows[i - 1] * winv % Q
+    return [ninv * sum(vals[i] * pows[((2 * i + 1) * j) % (2 * n)] for i in range(n)) % Q for j in range(n)]
+
+
+def poly_div(a, b, n):
+    """a / b in Z_q[X]/(X^n+1), or None if b is not invertible"""
+    ea, eb = evaluate(a, n), evaluate(b, n)
+    if any(x == 0 for x in eb):
+        return None
+    return interpolate([x * pow(y, Q - 2, Q) % Q for x, y in zip(ea, eb)], n)
+
+
+def shake_stream(data, nbytes):
+    import hashlib
+    return hashlib.shake_256(data).digest(nbytes)
+
+
+def hash_to_point(data, n):
+    k = 2 * n + 256
+    while True:
+        r = hash_to_point_from_stream(shake_stream(data, k), n)
+        if r is not None:
+            return r[0]
+        k *= 2
+
+
+def pk_bytes(h, n):
+    logn = n.bit_length() - 1
+    bits = ''.join(format(x, '014b') for x in h)
+    return bytes([logn]) + int(bits, 2).to_bytes(len(bits) // 8, 'big')
+
+
+def sig_bytes(salt, s2, n):
+    logn = n.bit_length() - 1
+    body = compress(s2, SIG_BYTELEN[n] - 41)
+    if body is None:
+        return None
+    return bytes([SIG_HEADER_BASE + logn]) + bytes(salt) + body
+
+
+def spec_verify(msg, sig, pk, n):
+    """Algorithm 16 on byte strings (after the header / length checks of the codecs); returns bool or a string for undecodable input"""
+    if len(sig) != SIG_BYTELEN[n] or len(pk) != PK_BYTELEN[n]:
+        return 'bad-length'
+    logn = n.bit_length() - 1
+    if sig[0] != SIG_HEADER_BASE + logn or pk[0] != logn:
+        return 'bad-header'
+    salt, body = sig[1:41], sig[41:]
+    bits = bin(int.from_bytes(pk[1:], 'big'))[2:].zfill(14 * n)
+    h = [int(bits[14 * i:14 * i + 14], 2) for i in range(n)]
+    if any(x >= Q for x in h):
+        return 'bad-pk-field'
+    s2 = decompress(body, n)
+    if s2 is None:
+        return False
+    c = hash_to_point(bytes(salt) + bytes(msg), n)
+    eh = evaluate(h, n); es = evaluate([x % Q for x in s2], n)
+    prod = interpolate([a * b % Q for a, b in zip(eh, es)], n)
+    s1 = [centred(ci - pi) for ci, pi in zip(c, prod)]
+    norm = sum(x * x for x in s1) + sum(x * x for x in s2)
+    return norm <= SIG_BOUND[n]
+
+
+def make_triple(n, s2_small, s1_small, msg=b'verif', salt=bytes(40)):
+    """(msg, sig bytes, pk bytes) for degree n such that verify recomputes s1 = s1_small (zero padded) with s2 = s2_small
+    (zero padded, entries moved to other positions until invertible): h = (c - s1) / s2"""
+    c = hash_to_point(bytes(salt) + bytes(msg), n)
+    k = len(s2_small)
+    for stride in list(range(1, 64)):
+        s2 = [0] * n
+        for i, v in enumerate(s2_small):
+            s2[(i * stride) % n] += v
+        s1 = list(s1_small) + [0] * (n - len(s1_small))
+        h = poly_div([(ci - x) % Q for ci, x in zip(c, s1)], [x % Q for x in s2], n)
+        if h is not None:
+            sig = sig_bytes(salt, s2, n)
+            if sig is None:
+                return None
+            return bytes(msg), sig, pk_bytes(h, n), s2, s1
+    return None
